@@ -255,9 +255,15 @@ def navigation_check(chk, fails, dis, stats):
                 continue
             # expectation from the scanner
             exp_h, exp_d = None, None
+            containing = []
             for u in uses:
                 (l1, c1), (l2, c2) = gen_check.line_col(t, u["start"]), gen_check.line_col(t, u["end"])
                 if l1 == pos[0] and c1 <= pos[1] <= c2:
+                    containing.append((c1 != pos[1], u))       # a use that starts at the cursor comes first
+            containing.sort(key=lambda x: x[0])
+            for _, u in containing[:1]:
+                (l1, c1), (l2, c2) = gen_check.line_col(t, u["start"]), gen_check.line_col(t, u["end"])
+                if True:
                     d = first.get(u["name"])
                     if d is not None and d["start"] < u["start"]:
                         exp_h = {"contents": {"kind": "markdown", "value": "```numscript\n$%s: %s\n```" % (u["name"], d["type"])},
@@ -297,12 +303,16 @@ def navigation_check(chk, fails, dis, stats):
 
 
 def boundary_ambiguous(t, pos, uses, fns):
-    """position on the shared boundary of two hoverable tokens (closed ranges overlap at one point)"""
+    """position on the shared boundary of two hoverable tokens (closed ranges overlap at one point); when one of them
+    STARTS there the cursor is inside that use and the answer is not ambiguous (the scanner expects the first use in
+    text order: the caller re-checks with the one that starts at the position)"""
     n = 0
     for u in uses:
         (l1, c1), (l2, c2) = gen_check.line_col(t, u["start"]), gen_check.line_col(t, u["end"])
         if l1 == pos[0] and c1 <= pos[1] <= c2:
             n += 1
+            if c1 == pos[1] and n > 1:
+                return False
     for (s, e, name) in fns:
         (l1, c1), (l2, c2) = gen_check.line_col(t, s), gen_check.line_col(t, e)
         if l1 == pos[0] and c1 <= pos[1] <= c2:
